@@ -9,7 +9,7 @@ with the model's and evaluates the property's post-condition on the
 specification bus (filter / scheme stored, value returned, mapping recorded,
 quiescent mode off)."""
 import itertools
-from common import InfraError
+from common import InfraError, hot_addr
 from props._devmem_lockstep import LockStep, judge
 
 ID = "C13"
@@ -321,7 +321,7 @@ def _correspond(ctx, corr, rng, T, ls):
             vals.add(rng.randrange(1 << N))
         for v in sorted(vals):
             for given in (False, True):
-                a, i = rng.randrange(64), rng.randrange(0, 4)
+                a, i = hot_addr(rng), rng.randrange(0, 4)
                 insts = [rand_inst(rng) for _ in range(i)] + [rand_inst(rng, res=N, v0=v, vstep=rng.choice([0, 1, 5]))]
                 devs = {a: rand_dev(rng, insts=insts)}
                 if rng.random() < 0.3:
@@ -338,7 +338,7 @@ def _correspond(ctx, corr, rng, T, ls):
     # wrong resolution supplied by the caller / resolution 0 / absent instance
     for _ in range(200 if T else 60):
         N = rng.randrange(0, 41)
-        a = rng.randrange(64)
+        a = hot_addr(rng)
         devs = {a: rand_dev(rng, insts=[rand_inst(rng)])}
         sc = {"suite": suite, "bus": bus_line(devs),
               "call": {"kind": "inputvalue", "a": rng.choice([a, a, (a + 1) % 64]), "i": rng.choice([0, 0, 1]),
@@ -366,7 +366,7 @@ def _correspond(ctx, corr, rng, T, ls):
         for _ in range(40 if T else 12):
             vals.add(rng.randrange(1 << w))
         for v in sorted(vals):
-            a, i = rng.randrange(64), rng.randrange(0, 3)
+            a, i = hot_addr(rng), rng.randrange(0, 3)
             fw = w if rng.random() < 0.9 else rng.choice([8, 16, 24])
             insts = [rand_inst(rng) for _ in range(i)] + [rand_inst(rng, fw=fw, filter=rng.randrange(1 << fw))]
             devs = {a: rand_dev(rng, insts=insts)}
@@ -393,7 +393,7 @@ def _correspond(ctx, corr, rng, T, ls):
                 with_faults(ls, corr, suite + "_faults", sc, "queryfilter", len(trace), rng)
     # plain ints, out-of-range values, absent instances
     for v in [0, 1, 255, 256, 0xFFFF, 0x10000, 0xFFFFFF, 0x1000000, -1, rng.randrange(1 << 24)]:
-        a = rng.randrange(64)
+        a = hot_addr(rng)
         devs = {a: rand_dev(rng, insts=[rand_inst(rng, fw=24)])}
         sc = {"suite": suite, "bus": bus_line(devs),
               "call": {"kind": "setfilter", "a": a, "i": 0, "enum": None, "value": v}}
@@ -420,7 +420,7 @@ def _correspond(ctx, corr, rng, T, ls):
     for s in [0, 1, 2, 3, 4, 5, 6, 255, -1, 256]:
         for member in ((False, True) if 0 <= s <= 4 else (False,)):
             for rep in range(3):
-                a, i = rng.randrange(64), rng.randrange(0, 3)
+                a, i = hot_addr(rng), rng.randrange(0, 3)
                 devs = {a: rand_dev(rng, insts=[rand_inst(rng) for _ in range(i + 1)])}
                 if rep == 2:
                     devs = {(a + 1) % 64: devs[a]}          # nobody at that address
@@ -451,10 +451,10 @@ def _correspond(ctx, corr, rng, T, ls):
         if form == "int":
             call["n"] = rng.choice([0, 1, 64, rng.randrange(65)])
         elif form == "tuple":
-            lo = rng.randrange(64)
+            lo = hot_addr(rng)
             call["lo"], call["hi"] = lo, rng.randrange(lo, 64)
         elif form == "list":
-            call["addrs"] = [rng.randrange(64) for _ in range(rng.randrange(0, 12))]
+            call["addrs"] = [hot_addr(rng) for _ in range(rng.randrange(0, 12))]
         sc = {"suite": suite, "bus": bus_line(devs), "call": call}
         end, res, badop, trace = run_scenario(ls, sc)
         judge(corr, suite, sc, end, res, badop, "autodiscover")
